@@ -22,7 +22,12 @@ func init() {
 
 // genEMTStream makes a stream with edges placed with bias to the first searchable
 // sample, block edges, each other, and exact monotone runs; ends with a quiet tail.
-func genEMTStream(n int, edges []int, signed bool, nsamp, npre, nmono int) ([]RawType, []string) {
+//
+// hot lists stream positions at which a request that changes nothing will arrive: some edges are put where
+// the samples are still retained at that moment - in the few samples whose edge has just had its record when
+// the block ends there, and anywhere in the retained history (where a second edge behind it gives the first
+// one its record early).
+func genEMTStream(n int, edges []int, signed bool, nsamp, npre, nmono int, hot []int) ([]RawType, []string) {
 	lo, hi := 0, 65535
 	if signed {
 		lo, hi = -32768, 32767
@@ -42,7 +47,15 @@ func genEMTStream(n int, edges []int, signed bool, nsamp, npre, nmono int) ([]Ra
 	last := -1
 	for f := 0; f < nf; f++ {
 		var pos int
-		switch simrt.Draw(5) {
+		kinds := 5
+		if len(hot) > 0 {
+			kinds = 7
+		}
+		switch simrt.Draw(kinds) {
+		case 5: // in the history retained when a request arrives
+			pos = hot[simrt.Draw(len(hot))] - 1 - simrt.Draw(2*nsamp+10)
+		case 6: // one record and one post-trigger length before a request, and a little more
+			pos = hot[simrt.Draw(len(hot))] - (2*nsamp - npre) - simrt.Draw(14)
 		case 0: // first searchable samples after (re)configuration
 			pos = npre + simrt.Draw(3) - 1
 		case 1: // around a block edge
@@ -126,6 +139,13 @@ type c08Cut struct {
 	answers  [2][]bool
 }
 
+// c08Noop is a place in the stream where, in the partitioned pass only, requests arrive that change nothing:
+// requests that break the validity rule and are refused, and a pulse-length request for the lengths in force.
+// The other pass has neither the requests nor a block edge there.
+type c08Noop struct {
+	pos int
+}
+
 func c08Body(env *simrt.Env) {
 	nsamp, npre := drawLengths()
 	rate := 10000.0
@@ -148,12 +168,6 @@ func c08Body(env *simrt.Env) {
 	}
 	edges := edgesOf(blocks)
 	ts := genEMTState(streamSpec{}, w.signed[0], nsamp, npre)
-	var feats []string
-	w.stream = make([][]RawType, 1)
-	w.stream[0], feats = genEMTStream(total, edges, w.signed[0], nsamp, npre, ts.EdgeMultiVerifyNMonotone)
-	env.Op("EMT nsamp=%d npre=%d total=%d blocks=%v level=%d nmono=%d short=%v contaminated=%v nozt=%v signed=%v", nsamp, npre, total, blocks,
-		ts.EdgeMultiLevel, ts.EdgeMultiVerifyNMonotone, ts.EdgeMultiMakeShortRecords, ts.EdgeMultiMakeContaminatedRecords, ts.EdgeMultiDisableZeroThreshold, w.signed[0])
-	env.Op("features %v", feats)
 
 	// ---- cuts: where requests are issued and where frames are lost. Both passes have a block edge there.
 	// scenario 0, 1: the edge-multi request before any data and nothing else (the plain case);
@@ -165,6 +179,24 @@ func c08Body(env *simrt.Env) {
 			interior = append(interior, e)
 		}
 	}
+	// requests that change nothing (partitioned pass only), at 1-3 block edges of the partition
+	noopAt := map[int]*c08Noop{}
+	var hot []int
+	if len(interior) > 0 && simrt.Draw(2) == 0 {
+		for i := 0; i < 1+simrt.Draw(3); i++ {
+			pos := interior[simrt.Draw(len(interior))]
+			if noopAt[pos] == nil {
+				noopAt[pos] = &c08Noop{pos: pos}
+				hot = append(hot, pos)
+			}
+		}
+	}
+	var feats []string
+	w.stream = make([][]RawType, 1)
+	w.stream[0], feats = genEMTStream(total, edges, w.signed[0], nsamp, npre, ts.EdgeMultiVerifyNMonotone, hot)
+	env.Op("EMT nsamp=%d npre=%d total=%d blocks=%v level=%d nmono=%d short=%v contaminated=%v nozt=%v signed=%v", nsamp, npre, total, blocks,
+		ts.EdgeMultiLevel, ts.EdgeMultiVerifyNMonotone, ts.EdgeMultiMakeShortRecords, ts.EdgeMultiMakeContaminatedRecords, ts.EdgeMultiDisableZeroThreshold, w.signed[0])
+	env.Op("features %v", feats)
 	cutAt := map[int]*c08Cut{0: {pos: 0, scripted: true}}
 	cut := func(pos int) *c08Cut {
 		if cutAt[pos] == nil {
@@ -351,9 +383,61 @@ func c08Body(env *simrt.Env) {
 				}
 			}
 		}
+		// atNoop: requests that must change nothing, between two blocks. The edge-multi search goes on as
+		// if they had not been made: no exemption for the records around them, and the other pass does
+		// without them.
+		atNoop := func(nc *c08Noop) {
+			w.sync()
+			w.drain()
+			for i := 0; i < 1+simrt.Draw(3); i++ {
+				var ok bool
+				var err error
+				what := ""
+				kind := simrt.Draw(5)
+				nm := cur.EdgeMultiVerifyNMonotone
+				if kind == 3 && !(cur.EdgeMulti && nm >= 2) {
+					kind = 0
+				}
+				switch kind {
+				case 0, 1: // edge-multi settings that ask for more monotone samples than a record has behind its trigger
+					bad := genEMTState(streamSpec{}, w.signed[0], w.nsamp, w.npre)
+					bad.EdgeMultiVerifyNMonotone = w.nsamp - w.npre + 1 + simrt.Draw(3)
+					if kind == 1 {
+						bad.EdgeMultiVerifyNMonotone = w.nsamp + 5
+					}
+					err = w.sc.ConfigureTriggers(&FullTriggerState{ChannelIndices: []int{0}, TriggerState: bad}, &ok)
+					what = fmt.Sprintf("ConfigureTriggers edge-multi with nmonotone=%d (post-trigger length %d)", bad.EdgeMultiVerifyNMonotone, w.nsamp-w.npre)
+				case 2: // a pre-trigger length longer than the record
+					err = w.sc.ConfigurePulseLengths(SizeObject{Nsamp: w.npre, Npre: w.npre + 2}, &ok)
+					what = "ConfigurePulseLengths with pre-trigger longer than the record"
+				case 3: // a post-trigger length shorter than the monotone run the settings in force ask for
+					err = w.sc.ConfigurePulseLengths(SizeObject{Nsamp: w.npre + nm - 1, Npre: w.npre}, &ok)
+					what = fmt.Sprintf("ConfigurePulseLengths nsamp=%d npre=%d with edge-multi nmonotone=%d in force", w.npre+nm-1, w.npre, nm)
+				default: // the lengths in force
+					err = w.sc.ConfigurePulseLengths(SizeObject{Nsamp: w.nsamp, Npre: w.npre}, &ok)
+					what = "ConfigurePulseLengths with the lengths in force"
+					if err != nil {
+						simrt.Fail("harness.noop", "harness:same-lengths-refused", "%s -> %v", what, err)
+					}
+					err = fmt.Errorf("(no change)")
+				}
+				env.Op("pass %d at %d: %s -> %v", pi, nc.pos, what, err)
+				if err == nil {
+					simrt.Fail("C08.validity-rule", "emt:invalid-request-accepted", "%s was accepted although it breaks the validity rule", what)
+				}
+				w.drain()
+				simrt.Hit("request-that-changes-nothing")
+				if cur.EdgeMulti {
+					simrt.Hit("request-that-changes-nothing:edge-multi-on")
+				}
+			}
+		}
 		for _, n := range part {
 			if ct := cutAt[w.sent]; ct != nil {
 				atCut(ct)
+			}
+			if nc := noopAt[w.sent]; nc != nil && pi == 1 {
+				atNoop(nc)
 			}
 			w.feedBlock(n, nil)
 			if n < w.nsamp-w.npre {
@@ -467,7 +551,7 @@ func c08Body(env *simrt.Env) {
 	if len(one) > 0 {
 		simrt.Hit("emt-records-produced")
 	}
-	env.Sample(map[string]interface{}{"nsamp": nsamp, "npre": npre, "samples": total, "blocks": len(blocks), "records": len(one), "cuts": len(cutPos), "sequences": sequences, "trouble": trouble, "features": feats})
+	env.Sample(map[string]interface{}{"nsamp": nsamp, "npre": npre, "samples": total, "blocks": len(blocks), "records": len(one), "cuts": len(cutPos), "sequences": sequences, "trouble": trouble, "features": feats, "noop_requests_at": hot})
 }
 
 func framesOf(rs []emtRec) []FrameIndex {
